@@ -244,6 +244,9 @@ class Arr:
     def __repr__(self):
         return f"Arr(shape={self.shape}, kind={self.kind})"
 
+    def __format__(self, spec):
+        return "<symarr>"
+
     def item(self):
         return self._as_sym()
 
@@ -573,6 +576,15 @@ class MaskedSel:
     def size(self):
         m = self.mask
         return asum(unop(lambda s: ite(s, Sym(1), Sym(0)), m, "i")).item() if m.ndim else None
+
+    def sum(self, axis=None, **kw):
+        """sum of the selected elements = sum over all positions of (mask ? value : 0)"""
+        if axis is not None:
+            raise Outside("sum of a masked selection along an axis")
+        m, f = self.mask, self.src_fn
+        z = Sym(0.0) if self.kind == "f" else Sym(0)
+        full = Arr(m.shape_, lambda idx: ite(m.get(idx), as_sym(f(idx)), z), self.kind)
+        return asum(full)
 
 
 def _same_mask(m1, m2):
@@ -1740,7 +1752,27 @@ class NPShim:
 
     @staticmethod
     def tile(a, reps):
-        raise Outside("np.tile")
+        """np.tile contract: result[idx] = a[idx mod shape] after left-padding the shorter of
+        (a.shape, reps) with ones"""
+        a = asarr(a)
+        if not isinstance(reps, (tuple, list)):
+            reps = (reps,)
+        reps = [ext(r) for r in reps]
+        nd = builtins.max(a.ndim, len(reps))
+        shp = [Sym(1)] * (nd - a.ndim) + list(a.shape_)
+        rps = [Sym(1)] * (nd - len(reps)) + reps
+        out_shape = [s_ * r for s_, r in zip(shp, rps)]
+        out_shape = [Sym(conc(e)) if conc(e) is not None else e for e in out_shape]
+        lead = nd - a.ndim
+
+        def fn(idx):
+            sub = []
+            for k in range(lead, nd):
+                e = shp[k]
+                sub.append(Sym(0) if conc(e) == 1 else (idx[k] if conc(rps[k]) == 1 else idx[k] % e))
+            return a._fn(tuple(sub))
+
+        return Arr(tuple(out_shape), fn, a.kind)
 
     @staticmethod
     def hstack(arrs):
